@@ -78,7 +78,8 @@ FirstBadEquiv(it, k) ==
        ELSE IF v = "unk" THEN "unk" ELSE "bad:" \o ToString(k) \o ":" \o v
 
 (* ---- C14: well-formedness of lifted blocks and of the graph built from them ---- *)
-(*   [t |-> "lifted", blocks, regs (names the architecture declares), edges <<[s, d]>>, irdst]            *)
+(*   [t |-> "lifted", blocks, regs (names the architecture declares), edges <<[s, d]>>, irdst,            *)
+(*    offs <<[v |-> offset bytes, loc]>> (the location database's offsets)]                               *)
 RECURSIVE IdsOf(_)
 IdsOf(e) ==
   CASE e.k = "id" -> {e.n}
@@ -89,10 +90,14 @@ IdsOf(e) ==
     [] e.k \in {"op", "compose"} -> UNION {IdsOf(e.a[i]) : i \in 1..Len(e.a)}
 IsLocName(n) == Len(n) > 4 /\ SubSeq(n, 1, 4) = "loc_"
 (* locations the destination can take: leaves of the conditional tree *)
-RECURSIVE DstLocs(_)
-DstLocs(e) == CASE e.k = "cond" -> DstLocs(e.t) \cup DstLocs(e.f)
-                [] e.k = "id" -> IF IsLocName(e.n) THEN {e.n} ELSE {}
-                [] OTHER -> {}
+RECURSIVE DstLocs(_, _)
+DstLocs(e, it) == CASE e.k = "cond" -> DstLocs(e.t, it) \cup DstLocs(e.f, it)
+                    [] e.k = "id" -> IF IsLocName(e.n) THEN {e.n} ELSE {}
+                    [] e.k = "int" ->      \* a constant destination designates the location registered at that offset
+                         IF \E k \in 1..Len(it.offs) : it.offs[k].v = e.v
+                         THEN {it.offs[CHOOSE k \in 1..Len(it.offs) : it.offs[k].v = e.v].loc}
+                         ELSE {"<no location at constant destination>"}
+                    [] OTHER -> {}
 Assigns(b) == UNION {{b.abs[a][i] : i \in 1..Len(b.abs[a])} : a \in 1..Len(b.abs)}
 DstAssigns(b, irdst) == {<<a, i>> \in UNION {{<<a, i>> : i \in 1..Len(b.abs[a])} : a \in 1..Len(b.abs)} :
                            b.abs[a][i].d.k = "id" /\ b.abs[a][i].d.n = irdst}
@@ -105,7 +110,7 @@ BlockVerdict(b, it) ==
        THEN "unknown-register:" \o (CHOOSE n \in UNION {IdsOf(x.s) \cup IdsOf(x.d) : x \in Assigns(b)} :
                                       ~IsLocName(n) /\ n # it.irdst /\ \A r \in 1..Len(it.regs) : it.regs[r] # n)
   ELSE LET p == CHOOSE q \in DstAssigns(b, it.irdst) : TRUE
-           locs == DstLocs(b.abs[p[1]][p[2]].s) IN
+           locs == DstLocs(b.abs[p[1]][p[2]].s, it) IN
        IF \E l \in locs : ~\E k \in 1..Len(it.edges) : it.edges[k].s = b.loc /\ it.edges[k].d = l
        THEN "missing-edge-to:" \o (CHOOSE l \in locs : ~\E k \in 1..Len(it.edges) : it.edges[k].s = b.loc /\ it.edges[k].d = l)
        ELSE "ok"
